@@ -645,12 +645,12 @@ def rule_r5(F, rep):
 
 
 def run(F, rep, tier):
-    rule_r1(F, rep)
-    rule_r2(F, rep)
-    rule_r3(F, rep)
-    rule_r4(F, rep)
-    rule_r4b(F, rep)
-    rule_r5(F, rep)
+    rep.attempt(rule_r1, F, rep)
+    rep.attempt(rule_r2, F, rep)
+    rep.attempt(rule_r3, F, rep)
+    rep.attempt(rule_r4, F, rep)
+    rep.attempt(rule_r4b, F, rep)
+    rep.attempt(rule_r5, F, rep)
     rep.assume("reflexivity, symmetry and transitivity over values are consequences of R1-R4 plus C06 (no NaN) "
                "and are not themselves decided; object equality uses get_visible_fields_order on both sides (C07)")
     return EXPLANATION
